@@ -298,6 +298,14 @@ func c10Unit(j *Job, u *JobUnit) error {
 					return nil, &sebufhttp.ValidationError{Violations: []*sebufhttp.FieldViolation{{Field: "custom.field", Description: "from handler"}}}
 				}, status: 400, fields: []string{"custom.field"}, handlerRuns: true},
 			)
+			// a plain Go error that WRAPS one of the built-in error types is still a plain handler error: 500, carrying its own
+			// (the wrapper's) message
+			wrappedSebuf := wrapErr{&sebufhttp.Error{Message: "boom: inner"}}
+			wrappedVE := wrapErr{&sebufhttp.ValidationError{Violations: []*sebufhttp.FieldViolation{{Field: "inner.field", Description: "from inner"}}}}
+			sources = append(sources,
+				errSource{key: "handler_wrapped_sebuf_error", handler: func() (proto.Message, error) { return nil, wrappedSebuf }, status: 500, message: wrappedSebuf.Error(), handlerRuns: true},
+				errSource{key: "handler_wrapped_validation_error", handler: func() (proto.Message, error) { return nil, wrappedVE }, status: 500, message: wrappedVE.Error(), handlerRuns: true},
+			)
 			for _, ce := range customs {
 				ce := ce
 				sources = append(sources,
